@@ -26,7 +26,7 @@ const rule = "state in which both fixture pools are live after at least one oper
 func PartsC01() []mc.Part {
 	return []mc.Part{
 		KernelPart(),
-		mc.ExplorePart("small-reserves", New(small("C01")), 3, 4, false, rule),
+		mc.ExplorePartC("small-reserves", New(small("C01")), 3, 4, false, rule, &mc.ConfOpts{Stores: []string{"coinswap"}, SkipDenoms: map[string]bool{"stake": true}, MaxPaths: 150}),
 		mc.ExplorePart("big-reserves", New(bigv("C01")), 3, 4, false, rule),
 	}
 }
@@ -34,7 +34,7 @@ func PartsC01() []mc.Part {
 // PartsC02: settlement searches.
 func PartsC02() []mc.Part {
 	return []mc.Part{
-		mc.ExplorePart("small-reserves", New(small("C02")), 3, 4, false, rule),
+		mc.ExplorePartC("small-reserves", New(small("C02")), 3, 4, false, rule, &mc.ConfOpts{Stores: []string{"coinswap"}, SkipDenoms: map[string]bool{"stake": true}, MaxPaths: 150}),
 		mc.ExplorePart("big-reserves", New(bigv("C02")), 2, 3, false, rule),
 	}
 }
